@@ -6,7 +6,12 @@ _generic_visit_list / _generic_visit_real_node`), `mutators.py` (`_round_robin`,
 _finish_generators`) and `controller.py` (`mutant_count`).
 
 * The syntax tree is a rose tree (`Tree`): a label (class name + all non-node fields + field layout,
-  interned by the harness) and the child nodes in `ast.iter_fields` order.
+  interned by the harness) and the child SLOTS in `ast.iter_fields` order: one slot per node-valued field
+  and one slot per entry of a list-valued field.  A list entry that is not a node (the `None` placeholders
+  of `arguments.kw_defaults` / `Dict.keys`, the strings of `Global.names` / `MatchClass.kwd_attrs`) is a
+  `Tree.hole`: it occupies its list position (so positions, hence slot paths, count it — the index
+  `_generic_visit_list` writes through is the position in the REAL list) but is never visited, never
+  written and never restored (`if isinstance(value, ast.AST)`).
 * The tree is a *shared mutable object graph* in Python.  Frames of the operator generators hold
   references to the original node objects, so a slot (a list position or a node-valued field) is
   identified by the path of the original child that lives in it.  A `Heap` says for every slot whether it
@@ -31,6 +36,8 @@ namespace PynguinModel.Mutants
 
 inductive Tree where
   | node (label : Nat) (kids : List Tree)
+  /-- a non-node entry of a child list (`None` placeholder, identifier string); `v` = its interned `repr` -/
+  | hole (v : Nat)
   deriving Repr, Inhabited
 
 mutual
@@ -41,6 +48,9 @@ def Tree.decEq : (a b : Tree) → Decidable (a = b)
       | isTrue h => isTrue (by rw [hl, h])
       | isFalse h => isFalse (by intro e; cases e; exact h rfl)
     else isFalse (by intro e; cases e; exact hl rfl)
+  | .hole v, .hole v' => if hv : v = v' then isTrue (by rw [hv]) else isFalse (by intro e; cases e; exact hv rfl)
+  | .node _ _, .hole _ => isFalse (by intro e; cases e)
+  | .hole _, .node _ _ => isFalse (by intro e; cases e)
 def Tree.decEqList : (a b : List Tree) → Decidable (a = b)
   | [], [] => isTrue rfl
   | [], _ :: _ => isFalse (by simp)
@@ -76,9 +86,16 @@ end Heap
 
 def Tree.label : Tree → Nat
   | .node l _ => l
+  | .hole v => v
 
 def Tree.kids : Tree → List Tree
   | .node _ ks => ks
+  | .hole _ => []
+
+/-- a real `ast.AST` node (what `isinstance(value, ast.AST)` tests) -/
+def Tree.isNode : Tree → Bool
+  | .node _ _ => true
+  | .hole _ => false
 
 /-- subtree at a path -/
 def Tree.get? : Tree → Path → Option Tree
@@ -87,16 +104,19 @@ def Tree.get? : Tree → Path → Option Tree
     match ks[i]? with
     | some k => k.get? p
     | none => none
+  | .hole _, _ :: _ => none
 
 /-- the tree with the subtree at path `p` replaced by `r` (identity when `p` is not a path of `t`) -/
 def Tree.replaceAt : Tree → Path → Tree → Tree
   | _, [], r => r
   | .node l ks, i :: p, r => .node l (ks.modify i (fun k => k.replaceAt p r))
+  | .hole v, _ :: _, _ => .hole v
 
 mutual
 /-- what a traversal from the root object sees under heap `h` -/
 def read : Tree → Heap → Tree
   | .node l ks, h => .node l (readKids ks h 0)
+  | .hole v, _ => .hole v
 def readKids : List Tree → Heap → Nat → List Tree
   | [], _, _ => []
   | k :: ks, h, i =>
@@ -114,6 +134,7 @@ def readRoot (t : Tree) (h : Heap) : Tree :=
 mutual
 def Tree.hash : Tree → Nat
   | .node l ks => (1000003 * (l + 1) + Tree.hashKids ks 17) % 2305843009213693951
+  | .hole v => (999983 * (v + 1) + 3) % 2305843009213693951
 def Tree.hashKids : List Tree → Nat → Nat
   | [], acc => acc
   | k :: ks, acc => Tree.hashKids ks ((acc * 1000033 + k.hash + 7) % 2305843009213693951)
@@ -173,7 +194,9 @@ def visit (op : Op) (tgt : Target) : Heap → Path → Tree → List Ev
     (if (h []).isSome || pruned tgt p then []
      else nodeEvs op tgt p (.node l ks) ++ visitKids op tgt h p ks 0)
     ++ [.write [] (h [])]
-/-- `_generic_visit`: the fields in order -/
+  -- `if isinstance(value, ast.AST)` fails: no visit, no write, no restore — but the entry keeps its position
+  | _, _, .hole _ => []
+/-- `_generic_visit`: the fields in order; `i` = position of the slot (placeholders are counted) -/
 def visitKids (op : Op) (tgt : Target) : Heap → Path → List Tree → Nat → List Ev
   | _, _, [], _ => []
   | h, p, k :: ks, i =>
